@@ -1,6 +1,7 @@
 package props
 
 import (
+	"encoding/hex"
 	"fmt"
 	"sort"
 	"strings"
@@ -226,6 +227,14 @@ func genC05(r *rt.Rand, tier string, idx int) *world.Scenario {
 	}
 	sc.Inactive = swarmSites(r, "seq.cache", "seq.bcast", "watch.subscribed", "watch.cacheread", "hub.recv")
 	keys := []string{prefix + "/a", prefix + "/a/b", prefix + "/pods/ns/p1", prefix + "/b"}
+	wp := watchPrefixes
+	if idx%10 == 3 {
+		// keys and watch prefixes that are not valid UTF-8, next to look-alikes made of valid characters
+		sc.Class = "registration-races+binary-keys"
+		hx := func(s string) string { return "hex:" + hex.EncodeToString([]byte(s)) }
+		keys = []string{hx(prefix + "/bin/\xff\xfe/a"), hx(prefix + "/bin/\xff\xfe/b"), prefix + "/bin/?/a", prefix + "/bin/\uFFFD/a", prefix + "/b", hx(prefix + "/bin/\xff")}
+		wp = []string{hx(prefix + "/bin/\xff\xfe/"), hx(prefix + "/bin/\xff"), prefix + "/bin/?/", prefix + "/bin/", prefix + "/", prefix + "/bin/\uFFFD"}
+	}
 	nw := 1 + r.Intn(3)
 	wid := 0
 	for c := 0; c < nw; c++ {
@@ -249,7 +258,7 @@ func genC05(r *rt.Rand, tier string, idx int) *world.Scenario {
 				cl.Ops = append(cl.Ops, world.Op{K: "get", Key: k})
 			case 4:
 				wid++
-				cl.Ops = append(cl.Ops, world.Op{K: "watch", Key: watchPrefixes[r.Intn(len(watchPrefixes))], Rev: pickWatchStart(r), W: wid, Consume: pickConsume(r)})
+				cl.Ops = append(cl.Ops, world.Op{K: "watch", Key: wp[r.Intn(len(wp))], Rev: pickWatchStart(r), W: wid, Consume: pickConsume(r)})
 			}
 		}
 		sc.Clients = append(sc.Clients, cl)
@@ -262,7 +271,7 @@ func genC05(r *rt.Rand, tier string, idx int) *world.Scenario {
 				cl.Ops = append(cl.Ops, world.Op{K: "sleep", Ms: int64(r.Intn(3))})
 			}
 			wid++
-			cl.Ops = append(cl.Ops, world.Op{K: "watch", Key: watchPrefixes[r.Intn(len(watchPrefixes))], Rev: pickWatchStart(r), W: wid, Consume: pickConsume(r)})
+			cl.Ops = append(cl.Ops, world.Op{K: "watch", Key: wp[r.Intn(len(wp))], Rev: pickWatchStart(r), W: wid, Consume: pickConsume(r)})
 			if r.Chance(0.2) {
 				cl.Ops = append(cl.Ops, world.Op{K: "get", Key: keys[0]}, world.Op{K: "cancel", W: wid})
 			}
